@@ -31,6 +31,11 @@ type ctl struct {
 	// iterator fault (scanner retry path): the NEXT iterator created fails its iterFault-th Next call once
 	iterFault       int
 	iterFaultsFired int
+	// persistent partition fault: EVERY iterator whose start key equals (eq) / differs from (!eq) iterFaultKey
+	// fails its iterFaultPersist-th Next call, until cleared (`iterfault 0`)
+	iterFaultPersist int
+	iterFaultKey     []byte
+	iterFaultEq      bool
 
 	// engine-timestamp fault (C15): when armed, the first GetTimestampOracle after the next successful
 	// commit fails, and the oracle read after that one is slow (so that whoever reads the lock's
@@ -217,6 +222,9 @@ func (w *kvWrap) Iter(ctx context.Context, start, end []byte, ts uint64, limit u
 	w.c.mu.Lock()
 	f := w.c.iterFault
 	w.c.iterFault = 0
+	if w.c.iterFaultPersist > 0 && bytes.Equal(start, w.c.iterFaultKey) == w.c.iterFaultEq {
+		f = w.c.iterFaultPersist
+	}
 	w.c.mu.Unlock()
 	return &itWrap{Iter: it, c: w.c, fault: f}, nil
 }
